@@ -24,6 +24,9 @@ func (_ ValueString) Kind() ValueKind { return StringValueKind }
 func (self ValueString) Display() (string, *Interrupt) { return self.Inner, nil }
 
 func (self ValueString) IsEqual(other Value) (bool, *Interrupt) {
+	if other.Kind() != self.Kind() {
+		return false, nil // values of different kinds (elements of an `[any]`, content of a `{ ? }`) are not equal
+	}
 	return self.Inner == other.(ValueString).Inner, nil
 }
 
